@@ -160,6 +160,10 @@ class Ctx:
                 try:
                     again = self.replay_fn(v.case)
                     confirmed = any(a.fingerprint == fp for a in again)
+                    if not confirmed and v.clause.endswith('crash') and any(a.clause.endswith('crash') for a in again):
+                        # a memory-safety failure may be caught at a different frame each time (use after free):
+                        # any crash on replay of the same case confirms it
+                        confirmed = True
                     if not confirmed:
                         # not reproducible in isolation: a harness problem, not a property violation
                         print('HARNESS-ERROR: violation %s did not reproduce on isolated replay: %s' % (fp, v.what))
